@@ -205,8 +205,10 @@ def step(st, verb, arg, tree, users, payload=b"", data_will_connect=False):
     if verb in ("stor", "appe"):
         if is_dir(t, p):
             return done(["150", "451"])
-        old = t.get(p, b"") if is_file(t, p) else b""
         off = offset
+        if off and not is_file(t, p):
+            return done(["150", "451"])  # a restarted upload needs the file it restarts: nothing is created
+        old = t.get(p, b"") if is_file(t, p) else b""
         if off:
             if payload:
                 new = old.ljust(off, b"\0")[:off] + payload + old[off + len(payload):]
